@@ -219,6 +219,15 @@ func driveCmdRace(ci int, c *Case, rnd *rand.Rand) []recEvent {
 		f := false
 		return append(evs, recEvent{Ev: "loadfail", ID: c.ID, Ok: &f, Var: "registration refused: " + err.Error()})
 	}
+	// a snapshot of the fresh runner: restoring it while a handler is still running abandons that
+	// call (its outcome, reported later, concerns nobody - in particular not the next call of the
+	// same command)
+	var snap0 *ysgo.Snapshot
+	if c.Family == "cmdrace-gate" && guarded(func() { snap0 = h.dr.Snapshot() }) && snap0 != nil {
+		sc := h.readSnap(snap0)
+		evs = append(evs, recEvent{Ev: "snap", ID: c.ID, R: 1, H: 1, Snap: &sc})
+	}
+	restores := 0
 	caseStart := time.Now()
 	// microseconds since the start of the case (a case lasts a few seconds at most: fits in 31 bits)
 	ms := func(t time.Time) int { return int(t.Sub(caseStart) / time.Microsecond) }
@@ -250,6 +259,29 @@ func driveCmdRace(ci int, c *Case, rnd *rand.Rand) []recEvent {
 			}
 		}
 		in := &recIn{}
+		if pending && kind == kHandler && !released && snap0 != nil && restores < 2 && rnd.Intn(5) == 0 {
+			restores++
+			var rerr error
+			panicked := !guarded(func() { rerr = h.dr.RestoreAt(snap0) })
+			ok := rerr == nil && !panicked
+			evs = append(evs, recEvent{Ev: "restore", ID: c.ID, R: 1, H: 1, Ok: &ok})
+			// the abandoned call now finishes, with an error or without
+			if g.chanMode != nil {
+				if !g.unbuffered {
+					g.chanMode <- errGate
+				}
+				g.chanMode = nil
+			} else {
+				g.release <- rnd.Intn(2) == 0
+			}
+			time.Sleep(2 * time.Millisecond)
+			g.takeCalls()
+			if !ok {
+				return evs
+			}
+			pending, kind, released, polls, dispatchIdx, waiting = false, kUnknown, false, 0, -1, false
+			continue
+		}
 		if pending && kind == kHandler && !released && (polls >= 2 || rnd.Intn(2) == 0) {
 			releasedErr = rnd.Intn(4) == 0
 			if g.chanMode != nil {
